@@ -444,12 +444,18 @@ def run(tier):
         if 'tzerr' in zone or not zone:
             return
         # the text: fields of the (normalised) local time, .mmm by truncation, +-HH:MM of the offset in force
-        exp_text = ref_iso_text(zone['l'], zone['o2_us'])
-        if res['iso'] != exp_text or res['str'] != exp_text:
-            fail('iso-text-wrong', task, expected=exp_text, got=[res['iso'], res['str']])
-            return
         exists = zone['l'] == d_us
         whole_minute = zone['o2_us'] % (60 * 10**6) == 0
+        exp_text = ref_iso_text(zone['l'], zone['o2_us'])
+        if not isinstance(res['iso'], str):
+            fail('format-failed', task, expected=exp_text, got=res['iso'])
+            return
+        if res['iso'] != res['str']:
+            fail('iso-text-differs-from-string-conversion', task, got=[res['iso'], res['str']])
+        text_ok = res['iso'] == exp_text
+        if whole_minute and not text_ok:
+            # (offsets with seconds - local mean time - are outside the property; the model still covers them)
+            fail('iso-text-wrong', task, expected=exp_text, got=res['iso'])
         if not exists:
             obs['nonexistent_wall_times'] += 1
         if not whole_minute:
@@ -464,7 +470,7 @@ def run(tier):
             elif d_us % 1000 == 0 and res['diff'] != 0:
                 fail('iso-roundtrip-diff', task, text=res['iso'], expected=0, got=res['diff'])
         # correspondence: iso_format under the dumped offsets, both variants
-        if model_ok:
+        if model_ok and isinstance(res['iso'], str):
             tl = ctable([(d_us, zone['o1_us'] // 10**6)]) if zone['o1_us'] % 10**6 == 0 else None
             tu = ctable([(zone['u'], zone['o2_us'] // 10**6)]) if zone['o2_us'] % 10**6 == 0 else None
             if tl and tu:
@@ -615,6 +621,8 @@ def run(tier):
         if len(bad) > 15:
             chk.corr_fail.append({'class': 'model-differs', 'more': len(bad) - 15})
 
+    prio = {'iso-roundtrip': 0, 'iso-roundtrip-diff': 0, 'wrong-instant': 0, 'null-mismatch': 0, 'getter-mismatch': 1, 'add-sub': 1}
+    chk.oracle_fail.sort(key=lambda c: prio.get(c['class'], 2))
     n_eval = len(tasks)
     samples = []
     for i in (0, 40, len(tasks) // 3, len(tasks) // 2, len(tasks) - 300):
